@@ -14,7 +14,9 @@ REL_TOL = 2e-5
 def close(a, b, rel=REL_TOL, scale=None):
     a = float(a)
     b = float(b)
-    if math.isnan(a) or math.isnan(b):
+    if a == b:          # also +-inf (e.g. gamma with a zero expected disorder)
+        return True
+    if math.isnan(a) or math.isnan(b) or math.isinf(a) or math.isinf(b):
         return False
     s = max(1.0, abs(b)) if scale is None else scale
     return abs(a - b) <= rel * s
